@@ -100,7 +100,7 @@ def classes(case):
 @st.composite
 def big_cases(draw):
     """Models of several hundred features (files of tens of kilobytes): block-wise or incremental readers/writers."""
-    return {"model": draw(S.model_specs(S.FEATUREIDE, 250, 500)), "cycles": 3}
+    return {"model": draw(S.model_specs(S.FEATUREIDE, 250, 500, many_ctcs=draw(st.booleans()))), "cycles": 3}
 
 
 SUBS = [
